@@ -10,6 +10,7 @@ import (
 
 var checks = map[string]func(*core.Ctx){
 	"C11": props.C11,
+	"C04": props.C04,
 }
 
 func main() {
